@@ -232,6 +232,35 @@ pub fn roundtrip(seed: u64, n: usize, out: &str) {
             rt_type!(o, key, "NamedCal", NamedCal::try_new(nm).unwrap(), p_named, Tagged::NamedCal, |t| if let Tagged::NamedCal(x) = t { Some(x) } else { None });
         }
         rt_type!(o, key, "FXRates", rand_fx(&mut r), p_fx, Tagged::FXRates, |t| if let Tagged::FXRates(x) = t { Some(x) } else { None });
+        if i % 3 == 1 {
+            // the calendar container (its own JSON impl; no tagged form) and the generic CurveDF through the JSON trait
+            let ct: CalType = match r.below(3) { 0 => CalType::Cal(rand_cal(&mut r)), 1 => CalType::NamedCal(NamedCal::try_new("tgt,ldn|fed").unwrap()),
+                                                _ => CalType::UnionCal(UnionCal::new(vec![rand_cal(&mut r)], Some(vec![rand_cal(&mut r)]))) };
+            let pct = |c: &CalType| match c { CalType::Cal(x) => json!({"Cal": p_cal(x)}), CalType::UnionCal(x) => json!({"UnionCal": p_union(x)}), CalType::NamedCal(x) => json!({"NamedCal": p_named(x)}) };
+            for fmt in ["json", "bincode"] {
+                let (oc, back) = via(&ct, fmt);
+                let eq = back.as_ref().map(|b| guard(|| *b == ct)).map(|g| matches!(g, Outcome::Ok(true)));
+                o.emit(&ev(format!("{}/CalType/{}", key, fmt), "CalType", fmt, oc, pct(&ct), back.as_ref().map(|b| pct(b)), eq));
+            }
+            use rateslib::curves::{CurveDF, LinearInterpolator, LogLinearInterpolator, Nodes};
+            use indexmap::IndexMap;
+            let mut d0 = r.range(5000, 20000);
+            let nodes = Nodes::F64(IndexMap::from_iter((0..(2 + r.below(5))).map(|_| { d0 += r.range(1, 900); (dn(d0), rand_pos(&mut r)) })));
+            let pdf = |c: &Value| c.clone();
+            macro_rules! df {
+                ($interp:expr, $T:ty) => {{
+                    let c = CurveDF::try_new(nodes.clone(), $interp, "crv", Convention::Act365F, Modifier::ModF, Some(rand_pos(&mut r)), NamedCal::try_new("tgt").unwrap()).unwrap();
+                    let proj = |c: &CurveDF<$T, NamedCal>| { let ns: Vec<Value> = verif::curvedf_nodes(c).iter().map(|(d, v)| json!({"d": nd(d), "v": p_num(v)})).collect(); json!({"nodes": ns}) };
+                    for fmt in ["json", "bincode"] {
+                        let (oc, back) = via(&c, fmt);
+                        let eq = back.as_ref().map(|b| guard(|| *b == c)).map(|g| matches!(g, Outcome::Ok(true)));
+                        o.emit(&ev(format!("{}/CurveDF/{}", key, fmt), "CurveDF", fmt, oc, proj(&c), back.as_ref().map(|b| proj(b)), eq));
+                    }
+                }};
+            }
+            if r.coin() { df!(LinearInterpolator::new(), LinearInterpolator) } else { df!(LogLinearInterpolator::new(), LogLinearInterpolator) }
+            let _ = pdf;
+        }
         // curves: json (untagged), tagged, and the pickling state
         {
             let c = rand_curve(&mut r, i);
@@ -412,6 +441,11 @@ fn shape_tagged(t: &Tagged) -> Value {
 }
 
 pub fn mutate(seed: u64, out: &str) {
+    mutate_n(seed, 0, out)
+}
+/// `double` > 0: additionally that many seeded DOUBLE mutations per document type (a second single mutation applied
+/// to an already mutated document)
+pub fn mutate_n(seed: u64, double: usize, out: &str) {
     let mut o = Out::create(out);
     let wd = Watchdog::start(out, 120);
     let mut r = Rng::new(seed ^ 0xC20);
@@ -461,6 +495,25 @@ pub fn mutate(seed: u64, out: &str) {
             };
             wd.leave();
             o.emit(&json!({"key": key, "op":"mut", "type": ty, "path": path, "how": how, "o": oc, "shape": shape, "usable": usable}));
+        }
+        // double mutations: mutate an already mutated (still parseable) document once more
+        let singles = mutations(&doc);
+        let mut made = 0;
+        let mut tries = 0;
+        while made < double && tries < 20 * double {
+            tries += 1;
+            let (p1, h1, t1) = &singles[r.below(singles.len() as u64) as usize];
+            let d1: Value = match serde_json::from_str(t1) { Ok(v) => v, Err(_) => continue };
+            let seconds = mutations(&d1);
+            if seconds.is_empty() { continue; }
+            let (p2, h2, t2) = &seconds[r.below(seconds.len() as u64) as usize];
+            let key = format!("mut2/{}/{}/{}+{}/{}", ty, p1.join("."), h1, p2.join("."), h2);
+            wd.enter(&key);
+            let res = guard(|| Tagged::from_json(t2));
+            let (oc, shape) = match &res { Outcome::Ok(Ok(v)) => ("ok", shape_tagged(v)), Outcome::Ok(Err(_)) => ("err", json!({"t":"none"})), Outcome::Panic(_) => ("panic", json!({"t":"none"})) };
+            wd.leave();
+            o.emit(&json!({"key": key, "op":"mut", "type": ty, "path": p2, "how": format!("{}+{}", h1, h2), "o": oc, "shape": shape, "usable": true}));
+            made += 1;
         }
     }
     eprintln!("persist mutate: {} events", o.finish());
@@ -543,7 +596,7 @@ pub fn main(args: &[String]) {
     let out = arg_val(args, "--out").unwrap_or_default();
     match args[0].as_str() {
         "roundtrip" => roundtrip(arg_u64(args, "--seed", 1), arg_u64(args, "--n", 50) as usize, &out),
-        "mutate" => mutate(arg_u64(args, "--seed", 1), &out),
+        "mutate" => mutate_n(arg_u64(args, "--seed", 1), arg_u64(args, "--double", 0) as usize, &out),
         "ctors" => ctors(&out),
         _ => panic!("unknown persist subcommand"),
     }
